@@ -46,7 +46,90 @@ fn traditional_pem(kp: &KeyPair) -> Option<Vec<u8>> {
 	}
 }
 
+fn der_tlv(tag: u8, content: &[u8]) -> Vec<u8> {
+	let mut v = vec![tag];
+	let n = content.len();
+	if n < 128 {
+		v.push(n as u8);
+	} else if n < 256 {
+		v.extend([0x81, n as u8]);
+	} else {
+		v.extend([0x82, (n >> 8) as u8, n as u8]);
+	}
+	v.extend_from_slice(content);
+	v
+}
+
+/// The same EC key as a file another tool could have written: SEC1 ("EC PRIVATE KEY") or PKCS#8, with the public point stored in
+/// compressed, hybrid or uncompressed form (SEC1 2.3.3; `openssl ec -conv_form compressed`). Built by hand, octet by octet.
+fn foreign_ec_pem(kp: &KeyPair, container: &str, form: &str) -> Option<Vec<u8>> {
+	use openssl::bn::BigNumContext;
+	use openssl::ec::PointConversionForm;
+	let ec = kp.inner_key.ec_key().ok()?;
+	let (size, curve_oid): (i32, &[u8]) = match kp.key_type {
+		KeyType::EcdsaP256 => (32, &[0x06, 0x08, 0x2a, 0x86, 0x48, 0xce, 0x3d, 0x03, 0x01, 0x07]),
+		KeyType::EcdsaP384 => (48, &[0x06, 0x05, 0x2b, 0x81, 0x04, 0x00, 0x22]),
+		KeyType::EcdsaP521 => (66, &[0x06, 0x05, 0x2b, 0x81, 0x04, 0x00, 0x23]),
+		_ => return None,
+	};
+	let mut ctx = BigNumContext::new().ok()?;
+	let f = match form {
+		"compressed" => PointConversionForm::COMPRESSED,
+		"hybrid" => PointConversionForm::HYBRID,
+		_ => PointConversionForm::UNCOMPRESSED,
+	};
+	let point = ec.public_key().to_bytes(ec.group(), f, &mut ctx).ok()?;
+	let scalar = ec.private_key().to_vec_padded(size).ok()?;
+	let mut bits = vec![0u8];
+	bits.extend_from_slice(&point);
+	let public = der_tlv(0xa1, &der_tlv(0x03, &bits));
+	let (label, der) = if container == "sec1" {
+		let mut c = der_tlv(0x02, &[1]);
+		c.extend(der_tlv(0x04, &scalar));
+		c.extend(der_tlv(0xa0, curve_oid));
+		c.extend(public);
+		("EC PRIVATE KEY", der_tlv(0x30, &c))
+	} else {
+		let mut inner = der_tlv(0x02, &[1]);
+		inner.extend(der_tlv(0x04, &scalar));
+		inner.extend(public);
+		let mut alg = vec![0x06, 0x07, 0x2a, 0x86, 0x48, 0xce, 0x3d, 0x02, 0x01];
+		alg.extend_from_slice(curve_oid);
+		let mut c = der_tlv(0x02, &[0]);
+		c.extend(der_tlv(0x30, &alg));
+		c.extend(der_tlv(0x04, &der_tlv(0x30, &inner)));
+		("PRIVATE KEY", der_tlv(0x30, &c))
+	};
+	let b64 = { use base64::Engine; base64::engine::general_purpose::STANDARD.encode(&der) };
+	let mut pem = format!("-----BEGIN {label}-----\n");
+	for chunk in b64.as_bytes().chunks(64) {
+		pem.push_str(std::str::from_utf8(chunk).unwrap());
+		pem.push('\n');
+	}
+	pem.push_str(&format!("-----END {label}-----\n"));
+	Some(pem.into_bytes())
+}
+
+thread_local! {
+	/// PEM of the key of the case being executed on this thread (for the reproduction of a panic)
+	static CURRENT_KEY: std::cell::RefCell<Option<String>> = const { std::cell::RefCell::new(None) };
+}
+
+/// The library runs in this process: a panic inside it is a failure of the case, not of the harness.
 pub fn exec(case: &Case) -> Outcome {
+	CURRENT_KEY.with(|k| *k.borrow_mut() = case.key_pem.clone());
+	match std::panic::catch_unwind(|| exec_inner(case)) {
+		Ok(o) => o,
+		Err(p) => {
+			let msg = p.downcast_ref::<String>().cloned().or_else(|| p.downcast_ref::<&str>().map(|s| s.to_string())).unwrap_or_else(|| "panic".into());
+			let mut c = case.clone();
+			c.key_pem = CURRENT_KEY.with(|k| k.borrow().clone());
+			Outcome::Fail { signature: "C15:panic".into(), detail: format!("the library panicked on a {} key (load form {}): {msg}", case.key_type, case.load_form), repro: Some(serde_json::to_value(&c).unwrap()) }
+		}
+	}
+}
+
+fn exec_inner(case: &Case) -> Outcome {
 	let kt: KeyType = match case.key_type.parse() {
 		Ok(k) => k,
 		Err(e) => return Outcome::Infra(format!("key type {}: {e}", case.key_type)),
@@ -65,6 +148,7 @@ pub fn exec(case: &Case) -> Outcome {
 		Ok(p) => String::from_utf8_lossy(&p).to_string(),
 		Err(e) => return Outcome::fail("C15:to-pem", format!("private_key_to_pem: {e}")),
 	};
+	CURRENT_KEY.with(|k| *k.borrow_mut() = Some(pem.clone()));
 	let repro = |sig: &str, detail: String| -> Outcome {
 		let mut c = case.clone();
 		c.key_pem = Some(pem.clone());
@@ -218,6 +302,37 @@ pub fn exec(case: &Case) -> Outcome {
 			}
 		}
 	}
+	// a key file written by another tool: same key, other container and point form
+	if let Some((container, form)) = case.load_form.split_once('-') {
+		if let Some(fpem) = foreign_ec_pem(&kp, container, form) {
+			let k3 = match KeyPair::from_pem(&fpem) {
+				Ok(k) => k,
+				Err(e) => return repro("C15:load-foreign", format!("{} key file rejected: {e}\n{}", case.load_form, String::from_utf8_lossy(&fpem))),
+			};
+			let fail = |what: String| repro("C15:load-foreign", format!("{what} (key loaded from a {} file)\n{}", case.load_form, String::from_utf8_lossy(&fpem)));
+			if k3.key_type != kt {
+				return fail(format!("type {} instead of {kt}", k3.key_type));
+			}
+			match k3.jwk_public_key() {
+				Ok(j) if j == got => {}
+				other => return fail(format!("JWK {other:?} instead of {got}")),
+			}
+			match k3.jwk_public_key_thumbprint() {
+				Ok(t) if t.to_string() == canon => {}
+				other => return fail(format!("thumbprint input {other:?} instead of {canon}")),
+			}
+			match k3.sign(&good_alg.to_lowercase().parse().unwrap(), &case.msg) {
+				Ok(sig) => {
+					if let Err(e) = jwk::verify(&refkey, good_alg, &case.msg, &sig) {
+						return fail(format!("signature does not verify: {e}"));
+					}
+				}
+				Err(e) => return fail(format!("sign failed: {e}")),
+			}
+			nontrivial = true;
+			classes.push("foreign-key-file".into());
+		}
+	}
 	Outcome::pass(nontrivial, classes)
 }
 
@@ -226,7 +341,12 @@ fn hex(b: &[u8]) -> String {
 }
 
 fn strat(kt: &'static str) -> impl Strategy<Value = Case> {
-	(proptest::collection::vec(any::<u8>(), 0..512), prop_oneof![3 => Just("pkcs8"), 1 => Just("traditional")]).prop_map(move |(msg, lf)| Case {
+	let forms = if kt.starts_with("ecdsa") {
+		prop_oneof![6 => Just("pkcs8"), 2 => Just("traditional"), 1 => Just("sec1-compressed"), 1 => Just("sec1-hybrid"), 1 => Just("pkcs8-compressed"), 1 => Just("pkcs8-hybrid"), 1 => Just("pkcs8-uncompressed")].boxed()
+	} else {
+		prop_oneof![3 => Just("pkcs8"), 1 => Just("traditional")].boxed()
+	};
+	(proptest::collection::vec(any::<u8>(), 0..512), forms).prop_map(move |(msg, lf)| Case {
 		key_type: kt.to_string(),
 		msg,
 		key_pem: None,
@@ -235,7 +355,7 @@ fn strat(kt: &'static str) -> impl Strategy<Value = Case> {
 }
 
 pub fn run(ctx: &Ctx, rep: &mut Report) {
-	rep.rule = "case = (key type, random message 0..511 B, load form); a fresh key of that type is generated by the library under test for every case (OpenSSL RNG; failing cases are stored with the concrete key). Oracle: JWK members == recomputation from the SPKI DER read with an own DER walker, no unexpected/private members, thumbprint input == RFC 7638 canonical text, signature of exact JWS length verifying under OpenSSL and ring with a key rebuilt from the JWK members, every other algorithm rejected, PEM/DER/traditional round trips preserve type, SPKI and private DER. Non-trivial = a coordinate, OKP key or signature component (r, s, RSA s) whose big-endian form starts with a zero octet; distinct = distinct (type, message, load form).".into();
+	rep.rule = "case = (key type, random message 0..511 B, load form); a fresh key of that type is generated by the library under test for every case (OpenSSL RNG; failing cases are stored with the concrete key). Oracle: JWK members == recomputation from the SPKI DER read with an own DER walker, no unexpected/private members, thumbprint input == RFC 7638 canonical text, signature of exact JWS length verifying under OpenSSL and ring with a key rebuilt from the JWK members, every other algorithm rejected, PEM/DER/traditional round trips preserve type, SPKI and private DER; for EC keys, in 5 of 12 cases the same key is also loaded from a hand-built SEC1 or PKCS#8 file with the public point in compressed, hybrid or uncompressed form and must give the same JWK, thumbprint input and verifying signatures. Non-trivial = a coordinate, OKP key or signature component (r, s, RSA s) whose big-endian form starts with a zero octet; distinct = distinct (type, message, load form).".into();
 	rep.assume("OpenSSL's SPKI encoding of the public key and OpenSSL's/ring's verification primitives are correct");
 	run_replays::<Case>(ctx, rep, "lib", &exec);
 	if ctx.replay.is_some() {
